@@ -82,6 +82,21 @@ CHECKS = {
     text="TLC checks Bijection in every state, the action property that ids never change, and DecodeAfterLoad for every permutation of every rank's local numbering, every worker finishing order and 3 ranks over a 3-symbol vocabulary; TLC-simulated histories of add_symbols / add_symbols_mp / clone / combine are executed on the real class and every recorded step must be a step the spec allows (for add_symbols_mp: some order-preserving interleaving), with sym_index inverting sym_table; 24/200 generated rank-file sets are loaded in separate interpreters under PYTHONHASHSEED 0-3, pool on/off, forward/backward forced completion (HTA_VERIF hook), and after random renumbering: decoded strings must equal the file's, and digests of frames and of nine analysis outputs must coincide.",
     note="'Every hash seed' = all numberings in the model + four real seeds + random renumberings; output equality through harness-computed digests (order-sensitive). " + TB,
     ref="DESIGN.md section 5 (C11)"),
+ "C08": dict(
+    technique="TLA+ transcription of the critical-path graph builder (MC_CriticalPath: one action per kernel-loop row, all tie orders) checked by TLC + every program of the model replayed into the real builder (graphs must coincide) + TLC trace validation of real graphs clause by clause (Trace_CriticalPath)",
+    text="TLC explores every causally consistent single-thread program of 3 runtime calls (launches onto two streams, stream and device synchronisation) on a grid 0..3 with every kernel / sync-record placement and every tie order of the kernel loop: invariants GraphAcyclic, GraphForward, GraphWeights, LaunchShape, K2KShape, SyncShape (the prefix configuration without the guard makes TLC find the cycle D12 and the backward sync edge D18). All 1704 (thorough: 5174) behaviours of the 2-call (3-call) model are enumerated and every distinct program is run through TraceAnalysis.critical_path_analysis: the real edge set must equal one of the model's graphs for that program. 200/2500 generated multi-thread traces (nested operators, blocking calls, 4 sync kinds, 0-3 steps, every annotation window / instance range present, zero-weight launch option) are analysed and TLC checks success, one start/end node per analysed event with its times, acyclicity, forward edges, the weight rule, non-negativity and the shape of launch / kernel-kernel / sync / span / dependency edges.",
+    note="Domain (re-evaluated by TLC): WellFormed rows, strict per-stream FIFO, launch-causal and sync-causal. Event-based sync edges are inert in this environment (O2). " + TB,
+    ref="DESIGN.md section 5 (C08)"),
+ "C09": dict(
+    technique="TLA+ longest-path model (MC_LongestPath: all weighted DAGs of 4-5 nodes, networkx tie-breaking transcribed, token walk) checked by TLC + TLC trace validation of reported paths and of what-if re-weighted copies (Trace_CriticalPath: Relax / PathWeight)",
+    text="TLC checks on every DAG of 4 nodes with weights {0,1,2} (thorough: 5 nodes, {0,2}) that the layered relaxation equals the brute-force maximum over all paths, that every walk stays below it, and that the transcribed dag_longest_path (with the fallback for all-zero graphs) reports a connected optimal path of >= 2 nodes; 150/2500 real graphs plus two re-weighted copies each (30% of weights changed, critical_path() recomputed) are validated: connected, weight = LongestWeight, <= makespan, events/edges sets exactly those of the path.",
+    note="Optimality uses the weights the algorithm reads (networkx attribute). " + TB,
+    ref="DESIGN.md section 5 (C09)"),
+ "C10": dict(
+    technique="TLC trace validation of get_critical_path_breakdown / summary / attribution map against declarative attribution and bound-by rules (CriticalPath.tla), on graphs whose builder is model-checked in MC_CriticalPath / MC_LongestPath",
+    text="150/2500 analysed traces: one breakdown row per critical edge with the edge's weight and type, durations adding up to the path weight, every span edge attributed to an existing event of the same thread (or the same device activity) whose span covers the edge's time range, kernel-kernel delays to the preceding kernel, the bound-by class of every row, and summary shares = class sums / total adding up to 100.",
+    note="Communication kernels are recognised through the vocabulary table CommNames. " + TB,
+    ref="DESIGN.md section 5 (C10)"),
 }
 
 NOT_YET = {}
